@@ -25,7 +25,7 @@ import (
 var run *fw.Run
 
 type step struct {
-	Kind  string `json:"k"` // syn, dupsyn, othersyn, badack, goodack, rst-in, rst-out, data, wait, synack-bad, synack-good, rstack-good, rst-plain
+	Kind  string `json:"k"` // syn, synburst, dupsyn, othersyn, badack, goodack, rst-in, rst-out, data, wait, synack-bad, synack-good, rstack-good, rst-plain
 	Delta int64  `json:"d,omitempty"`
 }
 
@@ -89,12 +89,17 @@ func genScript(seed int64, k int, mode string) *script {
 		return sc
 	}
 	sc.Steps = append(sc.Steps, step{Kind: "syn"})
+	if mode == "normal" && k%5 == 3 {
+		// the SYN arrives two or three times back to back (duplicated by the network): the
+		// copies race each other through the listener; still exactly one handshake
+		sc.Steps[0] = step{Kind: "synburst", Delta: int64(2 + k%2)}
+	}
 	if k%7 == 0 { // the canonical exchange: must yield exactly one connection
 		sc.Steps = append(sc.Steps, step{Kind: "goodack"})
 		return sc
 	}
 	for i := 0; i < r.Intn(5); i++ {
-		sc.Steps = append(sc.Steps, step{Kind: []string{"badack", "badack", "badack", "dupsyn", "wait", "data", "rst-out", "othersyn", "rst-in", "crossack-port", "crossack-addr"}[r.Intn(11)]})
+		sc.Steps = append(sc.Steps, step{Kind: []string{"badack", "badack", "badack", "dupsyn", "wait", "data", "rst-out", "othersyn", "rst-in", "crossack-port", "crossack-addr", "rst-ack-exact", "flag-syn"}[r.Intn(13)]})
 	}
 	if r.Chance(4, 5) {
 		sc.Steps = append(sc.Steps, step{Kind: "goodack"})
@@ -249,9 +254,12 @@ func runPassive(e *env, sc *script) {
 	cookieMode := sc.Mode != "normal"
 	for _, st := range sc.Steps {
 		switch st.Kind {
-		case "syn", "dupsyn":
+		case "syn", "dupsyn", "synburst":
 			t := base
 			t.Seq, t.Flags, t.RawOpts = x, rfc.SYN, opts
+			for i := int64(1); st.Kind == "synburst" && i < st.Delta; i++ {
+				e.p.SendNoSettle(t)
+			}
 			e.p.Send(t)
 			segs := take()
 			tr("%s seq=%d -> %v", st.Kind, x, segs)
@@ -274,7 +282,7 @@ func runPassive(e *env, sc *script) {
 					}
 				}
 			}
-			if st.Kind == "syn" && !haveY {
+			if (st.Kind == "syn" || st.Kind == "synburst") && !haveY {
 				viol("passive/no-synack", "a SYN to a listening port drew no SYN-ACK", sc, trace)
 				return
 			}
@@ -368,6 +376,38 @@ func runPassive(e *env, sc *script) {
 			if accepted == 0 && !goodAckSent {
 				dead = true
 			}
+		case "rst-ack-exact":
+			// the peer aborts with RST|ACK acknowledging exactly the stack's SYN-ACK: this ends
+			// the attempt (or is ignored); it must never be taken for the handshake ACK
+			if !haveY {
+				continue
+			}
+			t := base
+			t.Seq, t.Ack, t.Flags = x+1, y+1, rfc.RST|rfc.ACK
+			e.p.Send(t)
+			segs := take()
+			tr("rst|ack seq=%d ack=%d -> %v", t.Seq, t.Ack, segs)
+			if len(segs) > 0 {
+				viol("reset-answered", fmt.Sprintf("a reset (RST|ACK acknowledging the SYN-ACK) was answered with %v", segs), sc, trace)
+			}
+			if accepted == 0 && !goodAckSent {
+				dead = true
+			}
+			poll("RST|ACK acknowledging the SYN-ACK")
+		case "flag-syn":
+			// SYN combined with RST (and other bits) from another port to the listening port:
+			// a segment carrying RST is never answered, and it starts nothing
+			fl := []uint8{rfc.SYN | rfc.RST, rfc.SYN | rfc.RST | rfc.ACK, rfc.SYN | rfc.RST | rfc.FIN, rfc.SYN | rfc.RST | rfc.PSH | rfc.URG}[r.Intn(4)]
+			t := base
+			t.SrcPort = pport + 1
+			t.Seq, t.Ack, t.Flags, t.RawOpts = x+7, r.U32(), fl, opts
+			e.p.Send(t)
+			segs := e.p.TakeFor(lport, pport+1)
+			tr("flags %#02x from port %d -> %v", fl, pport+1, segs)
+			if len(segs) > 0 {
+				viol("reset-answered", fmt.Sprintf("a segment with flags %#02x (RST set) sent to the listening port was answered with %v", fl, segs), sc, trace)
+			}
+			run.Count("flag_combinations_to_listener", 1)
 		case "rst-out":
 			t := base
 			t.Seq, t.Flags = x+1+0x50000000, rfc.RST
